@@ -1,4 +1,9 @@
 import LoraVerif.Lemmas.PhyLemmas
+import LoraVerif.Lemmas.PhyEffect127
+import LoraVerif.Lemmas.PhyEffectMod127
+import LoraVerif.Lemmas.PhyEffectPkt127
+import LoraVerif.Lemmas.PhyEffectTx127
+import LoraVerif.Lemmas.PhyEffectFifo127
 /-!
 # C13 — the SX126x / SX127x drivers emit the same SPI bytes as Semtech's reference driver
 
@@ -320,10 +325,15 @@ example : (0x34 * 256 + 0x44 : Nat) = (3 * 16 + 4) * 256 + (4 * 16 + 4) := by de
 
 Register based: the reference burst-writes and read-modify-writes where lora-phy issues single
 register accesses, so equality is on the chip-visible effect — the value every register holds
-afterwards (`(trace p c).2.1.regs`).  Proved here: RF frequency (after the rounding fix), sync word,
-standby.  The remaining shared operations (modulation parameters of both variants, symbol timeout,
-sleep) are compared on the same effect by the correspondence suite only (three-way, incl. the
-compiled C), see `props/C13.json`. -/
+afterwards (`(trace p c).2.1.regs`).  Proved here: RF frequency (after the rounding fix), sync word.
+Proved in `Lemmas/PhyEffect127.lean` / `Lemmas/PhyEffectMod127.lean` (same namespace `C13`): standby,
+sleep, the symbol-count timeout (all 10-bit values, the other bits preserved) and the RX start that
+uses it, the modulation parameters of SX1276 and SX1272 (all SF × BW × CR × LDRO, every prior register
+content, errata paths) on the bits `eff_mask` compares; in `Lemmas/PhyEffectPkt127.lean`,
+`PhyEffectTx127.lean`, `PhyEffectFifo127.lean`: packet parameters (both variants, all flags / lengths /
+preambles), the IRQ mask of every mode, TX power and ramp for both PA pins and every requested power,
+the FIFO write of every payload.  Everything is also compared three-way
+(incl. the compiled C) by the correspondence suite, see `props/C13.json`. -/
 
 /-- the driver's frequency word (rounded to nearest since the fix) is the reference's, for every `u32` frequency -/
 theorem sx127x_pll_eq (f : Nat) (h : f < 4294967296) :
@@ -364,6 +374,23 @@ theorem sx127x_sync_word_effect_eq (y z : Nat) (hy : y < 16) (hz : z < 16) (c : 
     S127.writeRegister, S127.REG_LORA_SYNC_WORD, intfWrite, halWrite, Prog.req, Prog.xfer, byte, u8,
     Gen.PhyCodes127.Register.write_addr, Gen.PhyCodes127.Register.toInt, Rt.orI, Rt.wrap, Rt.ITy.bits,
     Chip.transact, hk, Chip.write127, setAt]
+
+/-! ### the hypotheses of the SX127x effect theorems are satisfiable -/
+
+example : ((0x81 : UInt8) &&& 7 ≠ 0) ∧ ((0x85 : UInt8) &&& 7 ≠ 0) := by decide
+example : Gen.PhyCodes127.SpreadingFactor._12 ≠ ._5 ∧ Sx127x.hzOf ._125KHz ≥ 125000 := by decide
+example : ∃ p, S127.modulation false (sfNum127 ._12) (Sx127x.hzOf ._125KHz) (crDenom127 ._4_5) 1 = some p := ⟨_, rfl⟩
+example : ∃ p, S127.modulation true (sfNum127 ._7) (Sx127x.hzOf ._500KHz) (crDenom127 ._4_8) 0 = some p := ⟨_, rfl⟩
+/-- the compared bits are exactly those of `eff_mask("modparams", ·)` in harness/src/c13b.rs -/
+example : (modMask 0x1d, modMask 0x1e, modMask 0x37, modMask 0x26, modMask 0x31, modMask 0x2f, modMask 0x36)
+    = (0xff, 0xff, 0xff, 0xfb, 0x07, 0, 0) := by decide
+
+/-- the masks of the packet-parameter and TX-power theorems are `eff_mask` of harness/src/c13b.rs -/
+example : (pktMask true 0x1d, pktMask true 0x22, pktMask false 0x22, pktMask true 0x33) = (0xff, 0xff, 0, 0) := by decide
+example : (txMask ⟨.sx1276, false, false, false⟩ 0x09, txMask ⟨.sx1276, false, true, false⟩ 0x09, txMask ⟨.sx1272, false, false, false⟩ 0x5a,
+    txMask ⟨.sx1272, false, false, false⟩ 0x4d, txMask ⟨.sx1276, false, true, false⟩ 0x0a) = (0xff, 0x8f, 0x07, 0, 0x0f) := by decide
+example : (refIrqOf (some .transmit), refIrqOf (some (.receive .continuous)), refIrqOf (some .cad), refIrqOf none) = (1, 0x252, 0x180, 0) := by
+  decide
 
 /-! ## from traces to what the interpreter records -/
 
